@@ -1945,7 +1945,9 @@ const SearchReverseLimitedQuadratic = -2
 //   - -2 (SearchReverseLimitedQuadratic): scan was limited by minStart, caller should
 //     retry with a different strategy
 func (d *DFA) SearchReverseLimited(cache *DFACache, haystack []byte, start, end, minStart int) int {
-	if end <= start || end > len(haystack) {
+	// end == start is a valid (empty) region: the automaton may match the empty
+	// string there (a prefix like .* before a candidate at the search start).
+	if end < start || end > len(haystack) {
 		return -1
 	}
 
@@ -1960,6 +1962,9 @@ func (d *DFA) SearchReverseLimited(cache *DFACache, haystack []byte, start, end,
 	lowerBound := start
 	if minStart > lowerBound {
 		lowerBound = minStart
+	}
+	if lowerBound > end {
+		lowerBound = end
 	}
 
 	// Hot loop: flat transition table (Rust approach).
